@@ -284,3 +284,38 @@ def field_quote_status(P: Program, sites_: List[CtorSite], cls: str, fld: str) -
             continue
         out.setdefault(quote_status(P, s.func, kw), []).append(f"{s.func.name}:{s.call.lineno}")
     return out
+
+
+def returned_classes(P: Program, f: FuncInfo, node_names: Set[str], depth: int = 0, _seen: Optional[Set[str]] = None) -> Set[str]:
+    """Node classes a constructor method can return (through `return self.visitY(ctx)` chains and local variables)."""
+    _seen = _seen if _seen is not None else set()
+    if f.qualname in _seen or depth > 6:
+        return set()
+    _seen.add(f.qualname)
+    out: Set[str] = set()
+
+    def of_expr(e: Optional[ast.AST], d: int = 0) -> None:
+        if e is None or d > 4:
+            return
+        if isinstance(e, ast.Call):
+            q = P.resolve_expr(f.module, e.func)
+            if q and q.startswith("vtlengine.AST.") and q.split(".")[-1] in node_names:
+                out.add(q.split(".")[-1])
+                return
+            name = e.func.attr if isinstance(e.func, ast.Attribute) else (e.func.id if isinstance(e.func, ast.Name) else "")
+            if name.startswith("visit"):
+                targets = [P.functions[t] for t in P.resolve_call(f, e)[:4] if t in P.functions]
+                if not targets:
+                    targets = [g for g in P.iter_functions() if g.module.name in CTOR_MODULES and g.name == name][:3]
+                for g in targets:
+                    out.update(returned_classes(P, g, node_names, depth + 1, _seen))
+        elif isinstance(e, ast.Name):
+            for n in walk_no_nested(f.node):
+                if isinstance(n, ast.Assign) and any(isinstance(t, ast.Name) and t.id == e.id for t in n.targets):
+                    of_expr(n.value, d + 1)
+        elif isinstance(e, ast.IfExp):
+            of_expr(e.body, d + 1)
+            of_expr(e.orelse, d + 1)
+    for r in _returns_of(f):
+        of_expr(r)
+    return out
